@@ -3,11 +3,11 @@
 //! `RightAlignWriter`, `is_char_boundary`, `char_starts` (door-opener `verif_encode_padded`).
 use crate::sym;
 use log::Record;
-use log4rs::encode::pattern::{verif_encode_field, verif_encode_padded, VerifSpec};
+use log4rs::encode::pattern::{verif_encode_field, verif_encode_padded, verif_width_writers, VerifSpec};
 use log4rs::encode::{Style, Write as EncWrite};
 use std::io;
 
-pub const OUTCAP: usize = 48;
+pub const OUTCAP: usize = 28;
 
 // The instances of this module contain literal chunks only.  The chunk list lives on the heap,
 // where the symbolic executor cannot see that an element is a literal, so it also explores
@@ -62,6 +62,17 @@ impl io::Write for Sink {
         }
         Ok(n)
     }
+    // no phantom `Err(WriteZero)` from the default `write_all` (see c09_pattern::Rec)
+    fn write_all(&mut self, mut b: &[u8]) -> io::Result<()> {
+        while !b.is_empty() {
+            let n = match self.write(b) {
+                Ok(n) => n,
+                Err(_) => 0,
+            };
+            b = &b[n..];
+        }
+        Ok(())
+    }
     fn flush(&mut self) -> io::Result<()> {
         Ok(())
     }
@@ -110,6 +121,12 @@ fn fill_bytes(fill: char, dst: &mut [u8; 4]) -> usize {
 /// One group `{(<pieces>):<fill><align><m>.<M>}`; `nsc` scalars split into `npieces` pieces at
 /// scalar boundaries; `has_min` / `has_max`: which bounds are present; m, M in 0..=4, m <= M.
 pub fn body(fill: char, right: bool, has_min: bool, has_max: bool, nsc: usize, npieces: usize, short: bool, allow4: bool, witness: bool) {
+    body_mode(fill, right, has_min, has_max, nsc, npieces, short, allow4, false, witness)
+}
+
+/// `direct`: feed the pieces straight into the writer composition (door-opener
+/// `verif_width_writers`) instead of going through `Chunk::encode` and the record formatting.
+pub fn body_mode(fill: char, right: bool, has_min: bool, has_max: bool, nsc: usize, npieces: usize, short: bool, allow4: bool, direct: bool, witness: bool) {
     // ---- symbolic text ----
     let mut text = [0u8; 16];
     let mut starts = [0usize; 5];
@@ -153,7 +170,10 @@ pub fn body(fill: char, right: bool, has_min: bool, has_max: bool, nsc: usize, n
     // chunk list): as the record's target (one write) or as its message `{}{}{}` (one write per
     // piece).
     let _ = (p2, npieces);
-    let res = if npieces <= 1 {
+    let res = if direct {
+        let all: [&[u8]; 3] = [&text[..b1], &text[b1..b2], &text[b2..tl]];
+        verif_width_writers(&mut sink, &all[..npieces.max(1).min(3)], spec)
+    } else if npieces <= 1 {
         let whole = unsafe { std::str::from_utf8_unchecked(&text[..tl]) };
         verif_encode_field(&mut sink, &Record::builder().target(whole).build(), false, spec)
     } else {
@@ -207,6 +227,122 @@ pub fn body(fill: char, right: bool, has_min: bool, has_max: bool, nsc: usize, n
     }
 }
 
+/// Layout-concrete instances of the direct variant: the byte lengths of the scalars (`layout`)
+/// and the piece boundaries (`cuts`, in scalars) are constants of the instance; the bytes of
+/// every scalar (any lead / continuation byte of its length class), m and M are symbolic.
+pub fn body_fixed(layout: &[usize], cuts: (usize, usize), fill: char, right: bool, has_min: bool, has_max: bool, short: bool, witness: bool) {
+    body_fixed_run(run_direct, 6, layout, cuts, fill, right, has_min, has_max, short, witness)
+}
+
+/// `mode` 0: the pieces go straight into the writer composition (`verif_width_writers`);
+/// 1: through the real `Chunk::encode` as `{t:<spec>}` (the text is the record's target: one write);
+/// 2: through the real `Chunk::encode` as `{m:<spec>}` with the message `{}{}` (two writes, cut at `cuts.0`).
+pub fn body_fixed_mode(mode: u8, layout: &[usize], cuts: (usize, usize), fill: char, right: bool, has_min: bool, has_max: bool, short: bool, witness: bool) {
+    body_fixed_w(6, mode, layout, cuts, fill, right, has_min, has_max, short, witness)
+}
+
+/// How the text reaches the code under check.  Kept out of `body_fixed_run` (generic over the
+/// runner) so that a harness of the direct family does not have `Chunk::encode` - and with it
+/// every formatter and the fmt machinery - among its reachable code and `dyn` candidates.
+fn run_direct(sink: &mut Sink, text: &[u8], b1: usize, b2: usize, tl: usize, spec: VerifSpec) -> io::Result<()> {
+    let all: [&[u8]; 3] = [&text[..b1], &text[b1..b2], &text[b2..tl]];
+    verif_width_writers(sink, &all, spec)
+}
+fn run_target(sink: &mut Sink, text: &[u8], _b1: usize, _b2: usize, tl: usize, spec: VerifSpec) -> io::Result<()> {
+    let whole = unsafe { std::str::from_utf8_unchecked(&text[..tl]) };
+    verif_encode_field(sink, &Record::builder().target(whole).build(), false, spec)
+}
+fn run_message(sink: &mut Sink, text: &[u8], b1: usize, _b2: usize, tl: usize, spec: VerifSpec) -> io::Result<()> {
+    let p0 = unsafe { std::str::from_utf8_unchecked(&text[..b1]) };
+    let rest = unsafe { std::str::from_utf8_unchecked(&text[b1..tl]) };
+    verif_encode_field(sink, &Record::builder().args(format_args!("{}{}", p0, rest)).build(), true, spec)
+}
+
+/// `wmax`: m and M range over 0..wmax.
+pub fn body_fixed_w(wmax: u8, mode: u8, layout: &[usize], cuts: (usize, usize), fill: char, right: bool, has_min: bool, has_max: bool, short: bool, witness: bool) {
+    match mode {
+        0 => body_fixed_run(run_direct, wmax, layout, cuts, fill, right, has_min, has_max, short, witness),
+        1 => body_fixed_run(run_target, wmax, layout, cuts, fill, right, has_min, has_max, short, witness),
+        _ => body_fixed_run(run_message, wmax, layout, cuts, fill, right, has_min, has_max, short, witness),
+    }
+}
+
+pub fn body_fixed_run<R>(run: R, wmax: u8, layout: &[usize], cuts: (usize, usize), fill: char, right: bool, has_min: bool, has_max: bool, short: bool, witness: bool)
+where
+    R: FnOnce(&mut Sink, &[u8], usize, usize, usize, VerifSpec) -> io::Result<()>,
+{
+    let count = layout.len();
+    let mut text = [0u8; 16];
+    let mut starts = [0usize; 6];
+    let mut tl = 0;
+    let mut i = 0;
+    while i < count {
+        starts[i] = tl;
+        let l = layout[i];
+        let lead = match l {
+            1 => sym::below(0x80),
+            2 => 0xC2 + sym::below(30),
+            3 => 0xE1 + sym::below(12),
+            _ => 0xF1 + sym::below(3),
+        };
+        text[tl] = lead;
+        let mut j = 1;
+        while j < l {
+            text[tl + j] = 0x80 + sym::below(64);
+            j += 1;
+        }
+        tl += l;
+        i += 1;
+    }
+    starts[count] = tl;
+    let (b1, b2) = (starts[cuts.0], starts[cuts.1]);
+    let m = sym::below(wmax) as usize;
+    let mx = sym::below(wmax) as usize;
+    if has_min && has_max {
+        sym::assume(m <= mx);
+    }
+    let spec = VerifSpec {
+        fill,
+        right,
+        min_width: if has_min { Some(m) } else { None },
+        max_width: if has_max { Some(mx) } else { None },
+    };
+    let mut sink = Sink { buf: [0; OUTCAP], len: 0, short };
+    let res = run(&mut sink, &text, b1, b2, tl, spec);
+    assert!(res.is_ok());
+
+    // reference: the first M scalars, padded to m scalars with the fill on the chosen side
+    let kept = if has_max && count > mx { mx } else { count };
+    let pad = if has_min && kept < m { m - kept } else { 0 };
+    let mut fb = [0u8; 4];
+    let fl = fill_bytes(fill, &mut fb);
+    let kept_bytes = starts[kept];
+    let n = kept_bytes + pad * fl;
+    assert!(sink.len == n, "C10: cut to the first M characters, then padded to m characters");
+    let lead_pad = if right { pad * fl } else { 0 };
+    let mut k = 0;
+    while k < OUTCAP {
+        if k < n {
+            let e = if k < lead_pad {
+                fb[k % fl]
+            } else if k < lead_pad + kept_bytes {
+                text[k - lead_pad]
+            } else {
+                fb[(k - lead_pad - kept_bytes) % fl]
+            };
+            assert!(sink.buf[k] == e, "C10: output equals truncate-then-pad byte for byte (hence valid UTF-8)");
+        }
+        k += 1;
+    }
+    cover!(!has_min || (pad > 0 && kept > 0), "padding applied to a non-empty text");
+    cover!(!has_max || kept < count, "text truncated");
+    cover!(kept == count && pad == 0 && count > 0, "text passed unchanged");
+    if witness {
+        assert!(false, "WITNESS");
+    }
+}
+
+// with `direct` and fewer than 3 pieces the tail of the text must not be dropped
 harnesses! {
     common {
         #[cfg_attr(kani, kani::stub(<chrono::Local as chrono::TimeZone>::offset_from_utc_datetime, crate::c16_time::stub_offset_from_utc))]
@@ -220,6 +356,64 @@ harnesses! {
         #[cfg_attr(kani, kani::stub(<anyhow::Error as std::ops::Drop>::drop, crate::util::stub_anyhow_drop))]
         #[cfg_attr(kani, kani::stub(<anyhow::Error as std::convert::From<std::io::Error>>::from, crate::util::stub_anyhow_from_cut))]
     }
+    // the writers themselves, fed directly (no Chunk::encode, no record formatting)
+    #[kani::unwind(8)]
+    fn d_left_min() { body_mode(' ', false, true, false, 3, 3, false, false, true, false) }
+    #[kani::unwind(8)]
+    fn d_left_min_witness() { body_mode(' ', false, true, false, 3, 3, false, false, true, true) }
+    #[kani::unwind(8)]
+    fn d_max() { body_mode(' ', false, false, true, 3, 3, false, false, true, false) }
+    #[kani::unwind(8)]
+    fn d_left_both() { body_mode('é', false, true, true, 3, 3, false, false, true, false) }
+    #[kani::unwind(8)]
+    fn d_right_min() { body_mode('~', true, true, false, 3, 3, false, false, true, false) }
+    #[kani::unwind(8)]
+    fn d_right_both() { body_mode('€', true, true, true, 3, 3, false, false, true, false) }
+    // layout-concrete instances (bytes, m, M symbolic)
+    #[kani::unwind(5)]
+    fn f_max_21() { body_fixed(&[2, 1], (1, 2), ' ', false, false, true, false, false) }
+    #[kani::unwind(5)]
+    fn f_max_21_witness() { body_fixed(&[2, 1], (1, 2), ' ', false, false, true, false, true) }
+    #[kani::unwind(5)]
+    fn f_left_min_12() { body_fixed(&[1, 2], (1, 2), ' ', false, true, false, false, false) }
+    #[kani::unwind(5)]
+    fn f_right_min_21() { body_fixed(&[2, 1], (0, 1), '~', true, true, false, false, false) }
+    #[kani::unwind(5)]
+    fn f_left_both_13() { body_fixed(&[1, 3], (1, 2), 'é', false, true, true, false, false) }
+    #[kani::unwind(5)]
+    fn f_right_both_31() { body_fixed(&[3, 1], (1, 1), '€', true, true, true, false, false) }
+    #[kani::unwind(5)]
+    fn f_max_short_21() { body_fixed(&[2, 1], (2, 2), ' ', false, false, true, true, false) }
+    // the same through the real Chunk::encode ({t:..}: one write; {m:..}: two writes)
+    #[kani::unwind(5)]
+    fn g_max_t21() { body_fixed_mode(1, &[2, 1], (0, 0), ' ', false, false, true, false, false) }
+    #[kani::unwind(5)]
+    fn g_left_both_t12() { body_fixed_mode(1, &[1, 2], (0, 0), 'é', false, true, true, false, false) }
+    #[kani::unwind(5)]
+    fn g_right_both_m21() { body_fixed_mode(2, &[2, 1], (1, 1), '€', true, true, true, false, false) }
+    #[kani::unwind(5)]
+    fn g_left_min_m12() { body_fixed_mode(2, &[1, 2], (1, 1), ' ', false, true, false, false, false) }
+    #[kani::unwind(5)]
+    fn f_left_min_213() { body_fixed(&[2, 1, 3], (1, 3), 'é', false, true, false, false, false) }
+    #[kani::unwind(5)]
+    fn f_right_min_312() { body_fixed(&[3, 1, 2], (1, 2), '€', true, true, false, false, false) }
+    #[kani::unwind(5)]
+    fn f_max_321() { body_fixed(&[3, 2, 1], (1, 2), ' ', false, false, true, false, false) }
+    // both widths: one scalar, m <= M < 4
+    #[kani::unwind(5)]
+    fn f_left_both_2() { body_fixed_run(run_direct, 4, &[2], (0, 1), ' ', false, true, true, false, false) }
+    #[kani::unwind(5)]
+    fn f_right_both_3() { body_fixed_run(run_direct, 4, &[3], (0, 1), 'é', true, true, true, false, false) }
+    #[kani::unwind(5)]
+    fn f_left_both_21() { body_fixed_run(run_direct, 4, &[2, 1], (1, 2), 'é', false, true, true, false, false) }
+    #[kani::unwind(5)]
+    fn f_max_123() { body_fixed(&[1, 2, 3], (1, 2), ' ', false, false, true, false, false) }
+    #[kani::unwind(5)]
+    fn f_left_both_321() { body_fixed(&[3, 2, 1], (0, 2), 'é', false, true, true, false, false) }
+    #[kani::unwind(8)]
+    fn d_max_short() { body_mode(' ', false, false, true, 3, 3, true, false, true, false) }
+    #[kani::unwind(8)]
+    fn d_left_both_short() { body_mode(' ', false, true, true, 3, 3, true, false, true, false) }
     // left/right x (min only | max only | both); fill ' '
     #[kani::unwind(8)]
     fn w_left_min() { body(' ', false, true, false, 3, 2, false, false, false) }
